@@ -26,6 +26,9 @@ func main() {
 	noBg := flag.Bool("nobg", false, "no background load (c01)")
 	tieRuns := flag.Int("tieruns", 0, "election-tie histories per run (c01)")
 	tieBlocks := flag.Int("tieblocks", 14, "blocks per election-tie history (c01)")
+	procRuns := flag.Int("procruns", 0, "how many standard and how many tie histories also run every replica in its own process (c01)")
+	tie := flag.Bool("tie", false, "replica mode: election-tie genesis")
+	idx := flag.Int("idx", 0, "replica mode: configuration index")
 	flag.Parse()
 	switch *mode {
 	case "smoke":
@@ -36,7 +39,9 @@ func main() {
 			defer os.RemoveAll(d)
 			*out = d
 		}
-		c01Main(*seed, *out, *blocks, *runs, *replay, *noBg, *tieRuns, *tieBlocks)
+		c01Main(*seed, *out, *blocks, *runs, *replay, *noBg, *tieRuns, *tieBlocks, *procRuns)
+	case "replica":
+		replicaMain(*seed, *tie, *idx, !*noBg)
 	case "smoke2":
 		smoke2(*seed)
 	default:
